@@ -98,7 +98,7 @@ def _l2_read(n: int, s0: int, l0: int, s1: int, l1: int, st0: int, st1: int, r: 
             for pos in range(bs, be):
                 exp.update(S.at(feats, pos, q))
         else:
-            exp.update(S.between(feats, bs, be, q))   # method 1 queries [block start, block end] as the code documents
+            exp.update(S.between(feats, bs, be - 1, q))   # method 1: one range query per aligned block [bs, be) = closed interval [bs, be-1]
     return sorted(set(S.names(got))) == sorted(exp)
 
 
@@ -145,7 +145,7 @@ def _l2b_molecule_annotation(n: int, s0: int, l0: int, s1: int, l1: int, st0: in
 POOL = [0, 3, 5, 8, 10]
 
 
-def _history(fc_feats, phases, queries, explicit_sort, early_query=False, other_first=False):
+def _history(fc_feats, phases, queries, explicit_sort, early_query=False, other_first=False, range_first=False):
     """add / (sort) / query, phase by phase, with the real memo; returns False on the first stale answer"""
     F.FeatureContainer.findFeaturesAt.cache_clear()
     fc = F.FeatureContainer()
@@ -162,6 +162,11 @@ def _history(fc_feats, phases, queries, explicit_sort, early_query=False, other_
         fc.addFeature('chr1', f[0], f[1], f[2], strand='+', data=None)
         if explicit_sort:
             fc.sort()
+        if range_first:      # a range query directly after the additions (no point query in between that would re-index)
+            for q in queries:
+                x = pick(POOL, q)
+                if S.names(fc.findFeaturesBetween('chr1', x, x + 2)) != S.between(feats, x, x + 2, None):
+                    return False
         for q in queries:
             x = pick(POOL, q)
             if S.names(fc.findFeaturesAt('chr1', x)) != S.at(feats, x, None):
@@ -174,13 +179,13 @@ def _history(fc_feats, phases, queries, explicit_sort, early_query=False, other_
     return True
 
 
-def _l3_history2(a0: int, b0: int, a1: int, b1: int, q0: int, q1: int, explicit_sort: bool, early_query: bool, other_first: bool) -> bool:
+def _l3_history2(a0: int, b0: int, a1: int, b1: int, q0: int, q1: int, explicit_sort: bool, early_query: bool, other_first: bool, range_first: bool) -> bool:
     """
     pre: 0 <= a0 <= b0 <= 3 and 0 <= a1 <= b1 <= 3
     pre: 0 <= q0 <= 3 and 0 <= q1 <= 3
     post: _
     """
-    return _history(None, [(a0, b0), (a1, b1)], (q0, q1), explicit_sort, early_query, other_first)
+    return _history(None, [(a0, b0), (a1, b1)], (q0, q1), explicit_sort, early_query, other_first, range_first)
 
 
 def _l3_history(a0: int, b0: int, a1: int, b1: int, a2: int, b2: int, q0: int, q1: int, explicit_sort: bool) -> bool:
@@ -215,7 +220,7 @@ LEMMAS = [
                          [dict(id='n2_%s_m%d_%s' % (['any', 'same', 'opposite'][sd], me, 'rev' if rv else 'fwd'), pre=['n == 2', 'stranded == %d' % sd, 'method == %d' % me, 'rev == %s' % bool(rv), 'st0 == 0', 'st1 == 1', 'b1 == 2', 'gap == 0', 'b2 == 1', '1 <= l0 <= 2', 'l1 == 1', 's0 <= 5'])
                           for sd in (0, 1, 2) for me in (0, 1) for rv in (0, 1)]}),
     dict(name='L3_history2_real_cache', fn='_l3_history2', engine='E1', timeout=_T, replay='replay.C16:replay', real_lru_cache=True,
-         cases={'quick': [dict(id='a0_%d_%s_%s' % (a, 'sort' if es else 'auto', 'early' if eq else 'late'), pre=['a0 == %d' % a, 'explicit_sort == %s' % es, 'early_query == %s' % eq, 'other_first == early_query']) for a in range(4) for es in (True, False) for eq in (True, False)]}),
+         cases={'quick': [dict(id='a0_%d_%s_%s' % (a, 'sort' if es else 'auto', 'early' if eq else 'late'), pre=['a0 == %d' % a, 'explicit_sort == %s' % es, 'early_query == %s' % eq, 'other_first == early_query', 'range_first == (not early_query)']) for a in range(4) for es in (True, False) for eq in (True, False)]}),
     dict(name='L3_history3_real_cache', fn='_l3_history', engine='E1', timeout=_T, replay='replay.C16:replay', real_lru_cache=True, tiers=['thorough'],
          cases={'thorough': [dict(id='a0_%d_b0_%d_q%d_%s' % (a, b_, q, 'sort' if es else 'auto'), pre=['a0 == %d' % a, 'b0 == %d' % b_, 'q0 == %d' % q, 'explicit_sort == %s' % es])
                              for a in range(5) for b_ in range(a, 5) for q in range(5) for es in (True, False)]}),
